@@ -408,6 +408,13 @@ def finishRecording (ao : AliasOracle) (cfg : OpCfg) (s : St) (excFlag : Option 
       let m := postMeta ao cfg a.data excFlag ((tEnd : Int) - (tStart : Int))
       saveRecording s3 cfg { id := a.id, data := a.data, md := m }
 
+/-- `_tape_recorder_exception_in_operation`: set to False after a normal return, True in the `except Exception` arm,
+left unset when a `BaseException` passes through -/
+def excFlagOf : End → Option Bool
+  | .out (.ret _) => some false
+  | .out (.exc _) => some true
+  | .interrupt _ => none
+
 /-- `create_new_recording` + registration of the active recording in `start_recording` -/
 def startRec (cfg : OpCfg) (s : St) : St :=
   addLog { s with active := some { id := s.nextId, data := [], params := cfg.params }, nextId := s.nextId + 1 }
@@ -424,11 +431,7 @@ def runOperation (ao : AliasOracle) (cfg : OpCfg) (s : St) (p : Prog) : St × En
     | none =>
       let (s1, tStart) := tick (startRec cfg s)
       let (s2, e) := execOperationFunc s1 p
-      let excFlag := match e with
-        | .out (.ret _) => some false
-        | .out (.exc _) => some true
-        | .interrupt _ => none
-      (finishRecording ao cfg s2 excFlag tStart, e)
+      (finishRecording ao cfg s2 (excFlagOf e) tStart, e)
 
 /-- outputs attached to a recording: keys of the `.output` shape (`_extract_recorded_output`) -/
 def extractOutputs : Data → Data
